@@ -12,7 +12,7 @@ MARKUPISH = ["# see <info>docs</info> for details", "label = '<b>bold</b>'", "pa
              "# closing </comment> without opening", "weird = 'a < b > c'", "tag = '<unknown>'"]
 BAD_MARKUP = ["broken = '<info>a</comment>'", "colour = '<fg=nosuchcolour>x</>'", "# <error>unclosed", "esc = '\\\\<b>'", "esc2 = r'x \\</info> y'",
               "# opening only: <fg=nosuchcolour> never closed", "tint = '<bg=nope>'"]
-PLAIN_FILL = ["total = 0", "drive = 'C:'  # a comment ending with a backslash: C:\\", "# lone trailing backslash \\", "joined = 1 + \\\n        2", "path = 'a' \\\n        'b'  # explicit line joining", "count = 1 + 1  # count", "name = 'été'", "values = [1, 2.5, None, True]", "pass",
+PLAIN_FILL = ["total = 0", "pair = f\"{n}\\\\{n}\"  # a backslash right in front of a replacement field", "drive = 'C:'  # a comment ending with a backslash: C:\\", "# lone trailing backslash \\", "joined = 1 + \\\n        2", "path = 'a' \\\n        'b'  # explicit line joining", "count = 1 + 1  # count", "name = 'été'", "values = [1, 2.5, None, True]", "pass",
               "text = \"double 'quoted'\"", "if len(sys.argv) > 99:\n        limit = 10", "data = {'k': (1, 2)}",
               "flag = not False and (1 or 2)", "x = 1\t# comment after a tab", "y = [\t1,\t2]"]
 
@@ -136,7 +136,8 @@ MESSAGES = ["boom", "", "two\nlines", "trailing newline\n", "Ünïcödé ✓ mes
             "The \"--</error>\" option does not exist.", "<error>already styled</error>", "tab\there", "escaped \\</info> closing tag",
             "never closed <fg=chartreuse> colour", "<bg=nope>", "option <options=sparkle> unknown",
             "<info>valid tag left open", "<comment>still open", "page one\x0cpage two", "unit\x1fsep and nel\x85here",
-            "<class 'm.build.<locals>.Plugin'> is not callable", "in <module>: <lambda> failed near <genexpr>"]
+            "<class 'm.build.<locals>.Plugin'> is not callable", "in <module>: <lambda> failed near <genexpr>",
+            "cannot open C:\\temp\\", "ends with two backslashes \\\\"]
 
 
 def interacting_pair(r):
